@@ -359,8 +359,12 @@ fn eval_options(tr: Tr, level: Level, occs: &[&Occ], unit_variant: bool, stage: 
             for partner in ["rename", "with", "skip", "multiple"] {
                 if let Some(p) = first(&seen, partner) {
                     if p.on {
-                        let mut loci = vec![fl.range];
-                        loci.extend(occs.iter().filter(|o| o.name == partner).map(|o| o.range));
+                        // one rule per partner (`flatten` with `rename` and `flatten` with `with` are two
+                        // conflicts, each wanting a diagnostic of its own - at the partner, or at `flatten`
+                        // when that was written last); the partner's tokens come first so that the two are
+                        // not taken for one and the same offending token
+                        let mut loci: Vec<R> = occs.iter().filter(|o| o.name == partner).map(|o| o.range).collect();
+                        loci.push(fl.range);
                         out.push(v("flatten-conflict", loci));
                     }
                 }
